@@ -532,6 +532,9 @@ def clamp32(v):
 def int_candidates(f):
     """Replacement values for one integer-like field (excluding the original)."""
     vals = list(INT_BOUNDARY) + [clamp32(f.val - 1), clamp32(f.val + 1)]
+    if f.name.startswith("fiber.") or f.name.startswith("frame.") or ".fiber." in f.name or ".frame." in f.name:
+        # stack offsets: also off by a few slots / by one frame header in either direction
+        vals += [clamp32(f.val + d) for d in (-2, 2, -3, 3, -FRAME_SIZE, FRAME_SIZE, -FRAME_SIZE - 1, FRAME_SIZE + 1)]
     if f.kind == "ref":
         c = f.ctx.get("count", 0)
         vals += [0, c - 1, c, c + 1] + list(f.ctx.get("enclosing", []))
